@@ -138,6 +138,7 @@ package fiber
 //@   pure
 //@   ensures in-range: 0 <= result && result <= len(s)
 //@   ensures named-no-slash: !seg.IsGreedy ==> noSlash(s[:result])
+//@   ensures named-no-slash-in-folded-path: forallS(p, foldPrefix(s, p) && !seg.IsGreedy ==> noSlash(p[:result]))
 
 //@ func findGreedyParamLen
 //@   props C02 C07
@@ -155,6 +156,7 @@ package fiber
 //@   requires param-length: segment.Length == 0 || segment.Length == 1
 //@   ensures in-range: 0 <= result && result <= len(s)
 //@   ensures named-no-slash: !segment.IsGreedy && (segment.IsLast || result < len(s)) ==> noSlash(s[:result])
+//@   ensures named-no-slash-in-folded-path: forallS(p, foldPrefix(s, p) && !segment.IsGreedy && (segment.IsLast || result < len(s)) ==> noSlash(p[:result]))
 
 // parserMatches: the answer of getMatch (a deterministic function of the parser and the paths).
 //@ fn parserMatches(p ref, dp string, path string, partial bool, ep int) bool
